@@ -153,6 +153,40 @@ def h_compose(ctx: Any, n: int, m: int, prof: str, twin: bool = False) -> None:
     ctx.check(O.eq(O.expand(two), O.expand(one)), f'C11.compose[{_kinds(p)}]', lambda: f'{p!r} . {d1!r} . {d2!r}: {two!r} vs {one!r}')
 
 
+def h_history(ctx: Any, n: int, m: int, prof: str, twin: bool = False) -> None:
+    """a result must not depend on what was computed earlier in the process: before the call under test the same
+    operation runs on the sibling patterns (gens.kind_swap: same ids, other constructors; gens.id_shift) and its
+    results are thrown away"""
+    pr = _prof(prof)
+    p = gens.gen(ctx, n, pr)
+    op = ('e', 's', 'inst')[ctx.choose(3, 'operation')]
+    if op == 'inst':
+        delta = _delta(ctx, pr.metavars, m, pr)
+        args: tuple = (delta,)
+        want = O.inst(O.expand(p), {k: O.expand(v) for k, v in delta.items()})
+        f = lambda q, a: q.instantiate(*a)
+        warm_args = [({k: gens.kind_swap(v) for k, v in delta.items()},), (delta,)]
+    else:
+        plug = gens.gen_upto(ctx, m, _prof('plug'))
+        x = ctx.int('x')
+        args = (x, plug)
+        want = (O.subst_e if op == 'e' else O.subst_s)(O.expand(p), x, O.expand(plug))
+        f = (lambda q, a: q.apply_esubst(*a)) if op == 'e' else (lambda q, a: q.apply_ssubst(*a))
+        warm_args = [(x, gens.kind_swap(plug)), (x, plug)]
+    for q in (gens.kind_swap(p), gens.id_shift(p)):
+        for a in warm_args:
+            try:
+                f(q, a)
+            except Exception:
+                ctx.count('warmup_raised')
+    r = f(p, args)
+    ctx.count('reached')
+    ctx.sample({'pattern': repr(p), 'operation': op, 'args': repr(args)})
+    if twin:
+        ctx.violation('TWIN')
+    ctx.check(O.eq(O.expand(r), want), f'C11.after-history.{op}[{type(p).__name__}|{_kinds(p)}]', lambda: f'after the same operation on sibling patterns: {p!r} {op} {args!r} -> {r!r}')
+
+
 def _norm(t: tuple) -> tuple:
     """drop pending substitutions of a variable that is declared fresh (the checker defers unconditionally,
     the generator drops them at once; both denote the same pattern)"""
@@ -368,6 +402,9 @@ def levels(tier: str) -> list[dict]:
     for n in ([1, 2, 3] if q else [1, 2, 3, 4]):
         m = 1 if q else 2
         L.append(dict(label=f'compose/meta0/n={n},val<={m}', module=M, fn='h_compose', kwargs=dict(n=n, m=m, prof='meta0'), budget_s=60 if q else 600, required=n <= 2))
+    for prof in ('notation', 'binder', 'meta'):
+        for n in ([2, 3] if q else [2, 3, 4]):
+            L.append(dict(label=f'history/{prof}/n={n},plug<=1', module=M, fn='h_history', kwargs=dict(n=n, m=1, prof=prof), budget_s=60 if q else 600, required=n <= 2, twin=False))
     return L
 
 
